@@ -666,6 +666,10 @@ def a_solver_found_stopped_is_finalized(ctx):
                 t_, tr = e[1], e[2]
                 while isinstance(t_, ast.UnaryOp) and isinstance(t_.op, ast.Not):
                     t_, tr = t_.operand, not tr
+                if isinstance(t_, ast.Attribute) and t_.attr == '_live' and isinstance(t_.value, ast.Name) and t_.value.id == sn:
+                    if not tr:
+                        finalized = True      # a solver that is not live has been finalized (Finalize clears _live) and has nothing pending
+                    continue
                 if term_call(t_):
                     val = tr
                 elif isinstance(t_, ast.Name) and t_.id in linked:
